@@ -50,7 +50,7 @@ func c13Build(c *c13Cfg) (waf coraza.WAF, err error, pi *fw.PanicInfo) {
 			}
 			cfg = cfg.WithRootFS(m)
 		}
-		waf, err = coraza.NewWAF(cfg.WithDirectives(c.Text))
+		waf, err = coraza.NewWAF(cfg.WithDirectives(c.directives()))
 	})
 	if pi != nil {
 		waf = nil
